@@ -117,8 +117,10 @@ def judge(case):
         return None, [], None      # see ASSUMPTIONS: damaged X.509 certificates are not in the generated domain
     name = type(obj).__name__
     findings = []
+    pinned_before = set(_class_level_encoders())
     result = serialise(obj)
     texts = _texts(result)
+    findings.extend(_left_behind(pinned_before, name))
     if not result['json'].ok:
         findings.append(Finding('json-raises:%s@%s' % (type(result['json'].exc).__name__, lib.raise_locus(result['json'].exc)),
                                 {'class': name, 'error': repr(result['json'].exc)[:200]}))
@@ -147,6 +149,7 @@ def judge(case):
         if _texts(serialise(duplicate.value)) != texts:
             findings.append(Finding('nondeterministic:set-order/%s' % name, {
                 'a': texts[0][:160], 'b': _texts(serialise(duplicate.value))[0][:160]}))
+    findings.extend(_encoder_relation(obj, name, texts))
     if hasattr(obj, 'compose') and hasattr(type(obj), 'parse_exact_size'):
         composed = lib.call(obj.compose)
         if composed.ok:
@@ -161,6 +164,65 @@ def judge(case):
                 findings.append(Finding('nondeterministic:after-compose/%s' % name, {
                     'a': str(texts[0])[:200], 'b': str(again[0])[:200]}))
     return obj, findings, texts
+
+
+def _class_level_encoders():
+    from cryptoparser.common.base import Serializable  # pylint: disable=import-outside-toplevel
+    seen, stack, found = set(), [Serializable], []
+    while stack:
+        cls = stack.pop()
+        for sub in cls.__subclasses__():
+            if sub not in seen:
+                seen.add(sub)
+                stack.append(sub)
+                if 'post_text_encoder' in sub.__dict__:
+                    found.append(sub)
+    return found
+
+
+def _encoder_relation(obj, name, texts):
+    """The Markdown text encoder is a documented hook (Serializable.post_text_encoder, an application installs its own
+    to colour or escape the leaves).  With a hook installed the same object renders the same text twice; after the
+    hook is taken out again it renders what it rendered before; and rendering leaves no class-level copy of an
+    encoder behind (such a copy pins the configuration of the moment for that class: what a later render gives would
+    depend on what was rendered before)."""
+    from cryptoparser.common.base import Serializable, SerializableTextEncoder  # pylint: disable=import-outside-toplevel
+    if not isinstance(obj, Serializable) or not isinstance(texts[1], str):
+        return []
+
+    class Marking(SerializableTextEncoder):
+        def __call__(self, value, level):
+            multiline, text = super(Marking, self).__call__(value, level)
+            return multiline, text.upper()
+    findings = []
+    before = set(_class_level_encoders())
+    original = Serializable.__dict__['post_text_encoder']
+    Serializable.post_text_encoder = Marking()
+    try:
+        first, second = lib.call(obj.as_markdown), lib.call(obj.as_markdown)
+    finally:
+        Serializable.post_text_encoder = original
+    third = lib.call(obj.as_markdown)
+    if first.ok and second.ok and first.value != second.value:
+        findings.append(Finding('nondeterministic:encoder-hook/%s' % name, {
+            'what': 'two renders under the same installed encoder differ', 'a': first.value[:160], 'b': second.value[:160]}))
+    elif third.ok and third.value != texts[1]:
+        findings.append(Finding('nondeterministic:encoder-hook/%s' % name, {
+            'what': 'after the hook was removed the object renders differently from before', 'a': texts[1][:160], 'b': third.value[:160]}))
+    findings.extend(_left_behind(before, name))
+    return findings
+
+
+def _left_behind(before, name):
+    left = [cls for cls in _class_level_encoders() if cls not in before]
+    if not left:
+        return []
+    for cls in left:
+        try:
+            delattr(cls, 'post_text_encoder')        # do not let one case poison the next
+        except AttributeError:
+            pass
+    return [Finding('class-state-left-behind:post_text_encoder/%s' % name, {'classes': sorted(cls.__name__ for cls in left)[:6]})]
 
 
 def check_case(case):
